@@ -174,7 +174,7 @@ def noisy(seed: int, text: str) -> str:
             lines[k], lines[j] = lines[j], lines[k]
         elif c < 0.85:
             lines.insert(k, r.choice(["@bad tag", "# language: xx-unknown", "| a | b | c |", "junk", '"""', "Examples:", "Rule: x", "Scenario: y",
-                                      "Background:", "Feature: again", "  Given z", "```", "@t", "", "#c", "| x |"]))
+                                      "Background:", "Feature: again", "  Given z", "```", "@t", "", "#c", "| x |", "junk  ", "Examples:\t ", "  Rule: z  "]))
         else:
             lines = lines[:k]
     return "\n".join(lines)
